@@ -209,5 +209,8 @@ class QuantileLinearRegression(LinearRegression):
             )
             if mult is not None:
                 epsilon *= (1 - mult) * 2
+            if sample_weight is not None:
+                # weighted mean, as mean_absolute_error does for quantile=0.5
+                return epsilon.sum() / numpy.sum(sample_weight)
             return epsilon.sum() / X.shape[0]
         return mean_absolute_error(y, pred, sample_weight=sample_weight)
